@@ -2,4 +2,4 @@
 #include "props.h"
 
 
-Case gen_C20(uint64_t, long, const GenCfg &, const char *) { return Case(); } RunOutcome exec_C20(const Case &) { return RunOutcome(); }
+
